@@ -580,6 +580,23 @@ func thirdPartySource(sc M) (*p7Source, error) {
 	if err != nil {
 		return nil, err
 	}
+	if str(sc, "sigshape") == "leadzero" {
+		// an RSA signature is an octet string as long as the modulus; one in 256 begins with a zero octet.  The producer is run on
+		// "message number 1, 2, ..." until that happens (the signed attributes carry the signing time, so it cannot be predicted).
+		for i := 1; ; i++ {
+			pb, perr := projectP7(der)
+			if perr == nil && len(pb.Signers) == 1 && len(pb.Signers[0].Sig) > 0 && pb.Signers[0].Sig[0] == 0 {
+				break
+			}
+			if i > 6000 {
+				return nil, fmt.Errorf("no signature with a leading zero octet in 6000 messages")
+			}
+			content = []byte(fmt.Sprintf("message number %d", i))
+			if der, err = opensslSign(str(sc, "tool"), flags, key, issuer, serial, content); err != nil {
+				return nil, err
+			}
+		}
+	}
 	s := &p7Source{name: fmt.Sprintf("openssl %s %v", str(sc, "tool"), flags), der: der, cert: testCert(key, issuer, serial),
 		others: []*x509.Certificate{testCert("k3", "i2", "s2"), testCert("k2", issuer, serial)}, content: content}
 	return s, nil
